@@ -1046,7 +1046,10 @@ class Interp:
             a += b
             return a
         if isinstance(a, (bytes, bytearray)) and getattr(b, "_pyvc_symbolic", False):
-            return b.__radd__(a)
+            r = b.__radd__(a)
+            if isinstance(a, bytearray) and hasattr(r, "mutable"):
+                r.mutable = True               # bytearray + bytes-like is a bytearray
+            return r
         try:
             return self._BINOPS[type(op)](a, b)
         except (RaiseSig, Unsupported, core.PathInfeasible, core.SpecAbort):
@@ -1951,6 +1954,21 @@ def m_bool(interp, v=False):
     if isinstance(v, (SInt, SU64, SReal)):
         return v != 0
     return interp.truth(v)
+
+
+@model(bytearray)
+def m_bytearray(interp, v=b"", *a):
+    if isinstance(v, SInt):
+        from .sbytes import zero_bytearray
+        if interp.truth(v < 0):
+            raise RaiseSig(ValueError("negative count"))
+        return zero_bytearray(v)
+    if getattr(v, "_pyvc_symbolic", False) and type(v).__name__ == "SBytes":
+        from .sbytes import SBytes
+        return SBytes(v.len, v.fn, mutable=True, regions=v.regions)
+    if contains_sym(v):
+        raise Unsupported("bytearray() of a symbolic value")
+    return bytearray(v, *a)
 
 
 @model(bytes)
